@@ -8,6 +8,9 @@ MC     : MC_VEcuModel_{c4,c3,c3forced[,c4mand,c4none]}.cfg exhaustive; dev* are 
 binding: code->spec: SEPARATE interpreter processes (different PYTHONHASHSEED, import order, start time,
          construction path, global-random state) build the ECU for seed x arguments, dump the model and the
          transcript of a request history; TLC (Trace_VEcuModel) decides W*, M*, D* for every case.
+         crowded processes: the judged ECU shares its interpreter with OTHER RandomUDSServer objects (other seeds /
+         arguments, a twin) that are built, set up and used before / between / after its construction, setup() and
+         requests (c16_lib.CROWD_PLANS); run 1 of such a case is the twin that lived alone in its interpreter.
          spec->code: every coin-flip outcome of the REAL generator is enumerated with a scripted RNG; the set
          of graphs must equal the set TLC derives from the design (difference = drift), and every graph is
          validated against (a) by TLC.
@@ -201,11 +204,15 @@ def _judge_cases(rep: Report, cases: list[dict[str, Any]], vs: list[dict[str, An
         va, vb = verd[cid]["a"], verd[cid]["b"]
         base = {"seed": c["seed"], "params": c["params"], "behavior": c["behavior"], "hist": c["hist"],
                 "combo": c.get("combo")}
+        env: dict[str, Any] = {}
+        if "pool" in c:  # crowded process environments: the neighbours belong to the replayable case
+            base["pool"] = c["pool"]
+            env = {"env": "crowd"}
         rep.extra["unspecified_steps"] = rep.extra.get("unspecified_steps", 0) + va["u"] + vb["u"]
         if va["v"] != "ok":
             run = vs[va["run"] - 1]["name"] if va["run"] else "?"
             r = res[run].get(cid, {}) if run != "?" else {}
-            rep.violate(va["v"], {"part": "a", "dsc_mandatory": L.DSC in mv},
+            rep.violate(va["v"], dict({"part": "a", "dsc_mandatory": L.DSC in mv}, **env),
                         dict(base, run=run, mandatory_sessions=ms, mandatory_services=mv,
                              **(_offenders(r["model"]) if "model" in r else {})))
         if vb["v"].startswith(("H0", "H1")):
@@ -222,7 +229,9 @@ def _judge_cases(rep: Report, cases: list[dict[str, Any]], vs: list[dict[str, An
                 det.update(request=bytes(a["q"]).hex(), answer_run_A=[a["o"], bytes(a["r"]).hex()],
                            answer_other=[b["o"], bytes(b["r"]).hex()])
             det["variants"] = [{k: v[k] for k in ("name", "hashseed", "import_first", "via_config")} for v in vs]
-            rep.violate(vb["v"], {"part": "b", "sid": sid}, det)
+            if env and vb["run"]:
+                det["crowd_plan"] = vs[vb["run"] - 1].get("crowd")
+            rep.violate(vb["v"], dict({"part": "b", "sid": sid}, **env), det)
 
 
 def _build_tcases(cases: list[dict[str, Any]], vs: list[dict[str, Any]],
@@ -272,7 +281,10 @@ def run(tier: str, seed: int) -> Report:
                 "`random` before and during the run and handles its cases in reverse order); each process dumps "
                 "server.services after setup() and answers a request history (all 256 service ids with short payloads, a "
                 "tour of the offered sessions with sub-function / identifier sweeps and resets, then challenge/response "
-                "histories on freshly restarted ECUs). non-trivial = distinct cases whose model offers >= 2 sessions "
+                "histories on freshly restarted ECUs). Crowded environments: for a spread of the cases the ECU is "
+                "additionally built in interpreters where other RandomUDSServer objects (other seeds / arguments, a twin) "
+                "are constructed, set up and used before / between / after its construction, setup() and requests (6 "
+                "plans), and compared with its twin that lived alone in an interpreter. non-trivial = distinct cases whose model offers >= 2 sessions "
                 "or that produced a security seed")
     rep.assumptions = [
         "time.time is virtual in the child processes; the variants differ in the tester's pacing (back to back, 0.3 s and 4 s "
@@ -300,6 +312,12 @@ def run(tier: str, seed: int) -> Report:
     vs = L.variants(seed)
     rep.extra["process_variants"] = vs
     cases = L.case_family(tier, seed)
+    # crowded process environments (run in the background while the first wave of lone processes is busy)
+    cvs = L.crowd_variants(seed)
+    ccases = L.crowd_family(tier, seed, cases)
+    crowd_pool = ThreadPoolExecutor(max_workers=1)
+    crowd_fut = crowd_pool.submit(L.run_crowd, ccases, cvs)
+    cres: dict[str, dict[int, dict[str, Any]]] = {}
     wave = 48
     tlc_results: list[Any] = []
     first_ok: tuple[dict[str, Any], dict[str, Any]] | None = None
@@ -310,7 +328,15 @@ def run(tier: str, seed: int) -> Report:
         res = L.run_children(chunk, vs, chunk=4 if tier == "quick" else 6, workers=8)
         tcs = _build_tcases(chunk, vs, res)
         if off == 0:
-            tcs_all = tcs + extra_cases
+            cres = crowd_fut.result()
+            crowd_pool.shutdown()
+            rep.extra["crowded_processes"] = {
+                "plans": [p["name"] for p in L.CROWD_PLANS], "judged_cases": len(ccases),
+                "neighbours": "per judged case: another seed with other arguments, the same seed with other arguments, "
+                              "another seed with the same arguments, an exact twin",
+                "neighbour_activity": L.check_crowd_stats(cres, cvs)}
+            ctcs = _build_tcases(ccases, cvs, cres)
+            tcs_all = tcs + ctcs + extra_cases
         else:
             tcs_all = tcs
         verd, results = L.validate(tcs_all, capacity=45_000 if tier == "quick" else 90_000, workers=6)
@@ -319,6 +345,10 @@ def run(tier: str, seed: int) -> Report:
         _stats(rep, chunk, res, vs[0]["name"])
         rep.traces += sum(len(t["runs"]) for t in tcs)
         if off == 0:
+            # crowded processes: run 1 = the lone twin, runs 2.. = one crowded interpreter per plan
+            _judge_cases(rep, ccases, cvs, cres, verd)
+            _stats(rep, ccases, cres, cvs[0]["name"])
+            rep.traces += sum(len(t["runs"]) for t in ctcs)
             # generator graphs: part (a) of every graph the real generator can produce
             for cid, inf in gen_info.items():
                 va = verd[cid]["a"]
@@ -378,7 +408,35 @@ def run(tier: str, seed: int) -> Report:
     mcases = [dict(c, id=3_000_010 + i) for i, c in enumerate([cases[0], cases[3]])]  # default and p=0.5 arguments
     mres = L.run_children(mcases, mvs, chunk=2, workers=3)
     mt = _build_tcases(mcases, mvs, mres)
-    verd, results = L.validate([m[0] for m in muts] + mt, workers=2)
+    # crowd family: ECUs whose model lives in one object per process (last set up wins / first set up wins) must be
+    # told from their lone twin by every plan (by at least one of the two) - the plans are not vacuous
+    cj = ccases[1]
+    lone_run = L.tlc_run_of(cres[cvs[0]["name"]][cj["id"]])
+    cmt: list[dict[str, Any]] = []
+    cexp: dict[int, tuple[str, str]] = {}
+    with ThreadPoolExecutor(max_workers=2) as ex:
+        futs = {}
+        for mi, mutant in enumerate(("shared_model", "memo_first")):
+            mvars = L.crowd_variants(seed, mutant)[1:]
+            mc = dict(cj, id=3_000_100 + 100 * mi)
+            futs[mutant] = (mvars, mc, ex.submit(L.run_children, [mc], mvars, 1, 6))
+        for mutant, (mvars, mc, fut) in futs.items():
+            r = fut.result()
+            L.check_crowd_stats(r, mvars)
+            ms_, mv_ = L.mandatory_of(mc)
+            for pi, v in enumerate(mvars):
+                cid = mc["id"] + 1 + pi
+                cmt.append(L.tlc_case(cid, ms_, mv_, [lone_run, L.tlc_run_of(r[v["name"]][mc["id"]])]))
+                cexp[cid] = (mutant, v["crowd"]["name"])
+    verd, results = L.validate([m[0] for m in muts] + mt + cmt, workers=2)
+    if any(verd[cid]["b"]["v"].startswith(("H0", "H1")) for cid in cexp):
+        raise Machinery("crowd self-test: the harness's own tester is inconsistent")
+    rejected = {(m, p) for cid, (m, p) in cexp.items() if (verd[cid]["a"]["v"], verd[cid]["b"]["v"]) != ("ok", "ok")}
+    dead_plans = [p["name"] for p in L.CROWD_PLANS if not any(pl == p["name"] for _m, pl in rejected)]
+    dead_mutants = [m for m in ("shared_model", "memo_first") if not any(mm == m for mm, _p in rejected)]
+    if dead_plans or dead_mutants:
+        raise Machinery(f"crowd self-test: process-wide model accepted (plans that saw nothing: {dead_plans}, "
+                        f"mutants never seen: {dead_mutants})")
     for r in results:
         rep.add_tlc(r, "Trace_VEcuModel self-test batch")
     got = [(verd[m["id"]]["a"]["v"], verd[m["id"]]["b"]["v"]) for m, _a, _b in muts]
@@ -389,7 +447,8 @@ def run(tier: str, seed: int) -> Report:
         raise Machinery(f"binding self-test: a generator that uses the global random module was accepted: {mgot}")
     stage["selftests"] = round(_t.time() - t0, 1)
     rep.extra["binding_selftest"] = {"corrupted_real_traces_rejected": [list(g) for g in got],
-                                     "global_rng_mutant_rejected": mgot}
+                                     "global_rng_mutant_rejected": mgot,
+                                     "process_wide_model_mutants_rejected": sorted(f"{m} by {p}" for m, p in rejected)}
     return rep
 
 
@@ -403,18 +462,27 @@ def replay(path: str) -> int:
         if "seed" not in d or "params" not in d:
             print(f"not replayable through child processes: {v['clause']} {v['sig']}")
             continue
-        cases.append({"id": len(cases), "seed": d["seed"], "params": d["params"], "behavior": d.get("behavior", {}),
-                      "hist": d.get("hist", {}), "combo": d.get("combo")})
+        c = {"id": len(cases), "seed": d["seed"], "params": d["params"], "behavior": d.get("behavior", {}),
+             "hist": d.get("hist", {}), "combo": d.get("combo")}
+        if "pool" in d:  # crowded process environments: lone twin + one crowded interpreter per plan
+            c["pool"] = d["pool"]
+        cases.append(c)
     if not cases:
         return 0
-    res = L.run_children(cases, vs, chunk=4, workers=6)
-    verd, _ = L.validate(_build_tcases(cases, vs, res))
     bad = 0
-    for c in cases:
-        v = verd[c["id"]]
-        print(f"replay seed={c['seed']} params={json.dumps(c['params'])[:160]} a={v['a']['v']} b={v['b']['v']}"
-              + (f" (run {v['b']['run']} step {v['b']['at']})" if v["b"]["v"] != "ok" else ""))
-        bad += v["a"]["v"] != "ok" or v["b"]["v"] != "ok"
+    cvs = L.crowd_variants(int(data.get("seed", 0)))
+    for group, gvs, runner in (([c for c in cases if "pool" not in c], vs, lambda g: L.run_children(g, vs, chunk=4, workers=6)),
+                               ([c for c in cases if "pool" in c], cvs, lambda g: L.run_crowd(g, cvs))):
+        if not group:
+            continue
+        res = runner(group)
+        verd, _ = L.validate(_build_tcases(group, gvs, res))
+        for c in group:
+            v = verd[c["id"]]
+            print(f"replay seed={c['seed']} params={json.dumps(c['params'])[:160]} a={v['a']['v']} b={v['b']['v']}"
+                  + (f" (run {gvs[v['b']['run'] - 1]['name'] if v['b']['run'] else '?'} step {v['b']['at']})"
+                     if v["b"]["v"] != "ok" else ""))
+            bad += v["a"]["v"] != "ok" or v["b"]["v"] != "ok"
     if bad:
         print(f"VIOLATION property=C16 replay={path}")
         return 1
